@@ -55,12 +55,13 @@ void checkPod(Case& c, A& a, const std::vector<int>& m) {
 }
 
 template <typename T>
-void podT(Case& c, bool alias, unsigned nops) {
+void podT(Case& c, unsigned nops) {
   typedef galois::PODResizeableArray<T> A;
   Rng& rng = c.rng;
   std::vector<int> m;
+  // source ranges of 0..~200 elements (across several capacity doublings)
   auto other = [&](std::vector<int>& om) {
-    unsigned n = (unsigned)rng.below(10);
+    unsigned n = (unsigned)rng.below(rng.pick({3u, 10u, 40u, 200u}));
     std::vector<T> v;
     for (unsigned i = 0; i < n; ++i) {
       int x = c.nextVal();
@@ -78,7 +79,7 @@ void podT(Case& c, bool alias, unsigned nops) {
     break;
   }
   case 1: {
-    unsigned n = (unsigned)rng.below(10);
+    unsigned n = (unsigned)rng.below(rng.pick({10u, 130u}));
     c.op("size-construct", n);
     ap.reset(new A((size_t)n));
     c.eq("size", ap->size(), (size_t)n);
@@ -99,7 +100,7 @@ void podT(Case& c, bool alias, unsigned nops) {
       grow = (unsigned)rng.pick({30, 55, 65, 90});
     unsigned x = (unsigned)rng.below(100);
     if (x < 40) {
-      if (alias && !m.empty() && rng.below(3) == 0) {
+      if (!m.empty() && rng.below(5) == 0) {
         size_t i = rng.below(m.size());
         c.op("push_back-own-element", (long)i);
         c.checking("pushed-value");
@@ -113,7 +114,7 @@ void podT(Case& c, bool alias, unsigned nops) {
         m.push_back(v);
       }
     } else if (x < 52) {
-      size_t n = rng.below(100) < grow ? m.size() + rng.below(9) : rng.below(m.size() + 1);
+      size_t n = rng.below(100) < grow ? m.size() + rng.below(rng.below(6) ? 9 : 150) : rng.below(m.size() + 1);
       c.op("resize", (long)n);
       size_t old = m.size();
       a.resize(n);
@@ -155,11 +156,6 @@ void podT(Case& c, bool alias, unsigned nops) {
     } else if (x < 80) {
       std::vector<int> om;
       std::vector<T> src = other(om);
-      if (src.empty()) { // (assign of an empty range is memcpy(.., 0) on possibly null pointers: not exercised)
-        int v = c.nextVal();
-        src.push_back(mk<T>(v));
-        om.push_back(v);
-      }
       c.op("assign", (long)src.size());
       a.assign(src.data(), src.data() + src.size());
       m = om;
@@ -624,17 +620,14 @@ void largeArrayT(Case& c, unsigned n, unsigned nops) {
 
 void run_PODResizeableArray(Case& c) {
   bool isInt    = c.rng.below(3) == 0;
-  bool alias    = c.rng.below(48) == 0;
   unsigned nops = c.pickOps();
-  std::string cfg = std::string(isInt ? "int" : "pod") + (alias ? "|alias" : "");
-  if (!c.begin("PODResizeableArray", cfg,
-          J().kv("elem", isInt ? "int" : "pod").kv("push_back_of_own_element", alias).kv("nops", nops),
-               alias ? "alias" : ""))
+  std::string cfg = std::string(isInt ? "int" : "pod");
+  if (!c.begin("PODResizeableArray", cfg, J().kv("elem", isInt ? "int" : "pod").kv("nops", nops)))
     return;
   if (isInt)
-    podT<int>(c, alias, nops);
+    podT<int>(c, nops);
   else
-    podT<Pod>(c, alias, nops);
+    podT<Pod>(c, nops);
 }
 
 void run_LazyArray(Case& c) {
